@@ -197,4 +197,32 @@ Deepen(T, f) ==
       dn  == DeepenLoop(T, f, 1, dn0, [j \in 1..Len(f.nodes) |-> TRUE])
       top == DNew(<<dn[1]>>, <<>>, <<>>).e
   IN DCompile(top)          \* flatex_to_deepex calls compile() once more after new()
+\* ---- unparse_raw ------------------------------------------------------------------------------------------------
+\* char::is_alphanumeric() || '_'  (every non-ASCII code point of the tables used here is a letter)
+IsNameChar(c) == IsLetter(c) \/ IsDigit(c) \/ c > 127
+RECURSIVE Unparse(_, _, _, _)
+(* Text of a deep expression.  fold: spelling of a number node that is not a plain literal (the data type's Debug);   *)
+(* blanks = TRUE is the code after the fix of F7 (an operator name that starts/ends like an identifier gets a blank), *)
+(* blanks = FALSE the pinned snapshot.                                                                                *)
+Unparse(T, e, fold, blanks) ==
+  LET NodeStr(nd) == CASE nd.k = "num" -> (IF nd.val.k = "num" THEN nd.val.v ELSE fold)
+                       [] nd.k = "var" -> <<LB>> \o nd.v \o <<RB>>
+                       [] nd.k = "expr" -> IF Len(nd.e.un) = 0 THEN <<LP>> \o Unparse(T, nd.e, fold, blanks) \o <<RP>>
+                                           ELSE Unparse(T, nd.e, fold, blanks)
+      OpStr(o) == LET nm == T[o].name IN
+                  (IF blanks /\ IsNameChar(nm[1]) THEN <<SP>> ELSE <<>>) \o nm \o (IF blanks /\ IsNameChar(nm[Len(nm)]) THEN <<SP>> ELSE <<>>)
+      RECURSIVE Join(_)
+      Join(j) == IF j > Len(e.nodes) THEN <<>>
+                 ELSE (IF j > 1 THEN OpStr(e.ops[j - 1].o) ELSE <<>>) \o NodeStr(e.nodes[j]) \o Join(j + 1)
+      RECURSIVE UnPre(_)
+      UnPre(j) == IF j > Len(e.un) THEN <<>> ELSE T[e.un[j]].name \o <<LP>> \o UnPre(j + 1)
+  IN IF Len(e.un) = 0 THEN Join(1) ELSE UnPre(1) \o Join(1) \o [j \in 1..Len(e.un) |-> RP]
+\* the same expression with every number node that is not a plain literal replaced by the literal `lit`
+RECURSIVE Respell(_, _)
+Respell(e, lit) ==
+  [e EXCEPT !.nodes = [j \in 1..Len(e.nodes) |->
+      CASE e.nodes[j].k = "num" -> (IF e.nodes[j].val.k = "num" THEN e.nodes[j] ELSE DNum(Num(lit)))
+        [] e.nodes[j].k = "expr" -> [e.nodes[j] EXCEPT !.e = Respell(e.nodes[j].e, lit)]
+        [] OTHER -> e.nodes[j]]]
+
 =============================================================================
